@@ -106,6 +106,9 @@ def run(run, ix, tier):
     check_int_cache_exact(run, ix)
 
 
+    from .c04 import check_mpc_eq_operand
+    check_mpc_eq_operand(run, ix, 'G-R4')
+
 def analyse(ix, f, plat, summaries):
     ev = H.RangeEval(ix, plat, summaries)
     env = {}
